@@ -1,17 +1,24 @@
 """C15 -- gaussian intervals use a group's own calibration if big enough, else its parent (DESIGN section 4, C15).
 
-Proved (unit `unit_intervals.formula`): the gaussian unit-level interval formula and floors on the real
-get_unit_prediction_intervals with GaussianModel.fit under contract.
-Proved (units `fit_cascade_step.<aggregate>`): ONE step of the real GaussianModel.fit (with _get_n_units_per_group and
-pandas_utils.semi_join inlined, _fit and the recursive self.fit under the function's own contract): threshold
-T = min(10, #calibration units); a single per-group fit iff every group that has calibration or outstanding units holds
->= T calibration units; otherwise the parent-level call gets all the data and the same-level call gets EXACTLY the
-calibration / reporting / outstanding rows of the groups with >= T calibration units.  By induction over the (finite)
-recursion this is the selection rule of the statement.
-Bounded (NOT counted as proved): the matching loop of the aggregate function (frames whose rows live at different
-aggregation levels with null keys, positional `iloc`/indicator tricks) and the concatenation of the models of the
-recursive calls; the real functions are compared with an oracle written from the statement over an enumerated small
-scope (bounded/c15_gaussian.py)."""
+Proved on the real code (all obligations discharged by z3, cvc5 in the thorough tier):
+* `unit_intervals.formula`        get_unit_prediction_intervals: the unit-level formula and floors (fit under contract).
+* `group_statistics.<level>`      GaussianModel._fit (real body, groupby.apply on the generic group's rows): one row per group
+                                  with calibration rows; kappa = sum w^2/(sum w)^2, weighted-median centres, bootstrapped scales --
+                                  every statistic over exactly the group's OWN calibration rows (keyed statistics, A-WM / A-SIGMA).
+* `fit_cascade_step.<aggregate>`  one step of GaussianModel.fit: threshold min(10, #cal); single fit iff no group (with calibration
+                                  or outstanding units) is below it; otherwise the parent level gets all the data and the same
+                                  level EXACTLY the calibration / reporting / outstanding rows of the large groups.
+* `fit_result.<level>`            the table fit returns is the table of the statement (FitSpec), with the two recursive calls under
+                                  the SAME contract: partial correctness of the recursion by induction (termination not proved).
+* `aggregate_intervals.<aggregate>` GaussianElectionModel.get_aggregate_prediction_intervals with fit under that contract: exactly one
+                                  model row per group with outstanding units, taken from its own level if large enough, else its
+                                  state, else all units; the bound formula (sums of unit bounds, normal quantile at (3+alpha)/4 of
+                                  (W mu, sigma sqrt(W2 + kappa W^2))), floors at the votes counted, whole numbers, finiteness.
+  The interval formulas are proved as GENERALISATIONS with products read as uninterpreted (AC) functions (pyvc.euf); a
+  counter-model of the generalisation alone is never reported as a violation: the exact VC is asked again, and a replay of
+  the real code against an oracle written from the statement decides.
+Bounded companion (kept, NOT counted as proved): bounded/c15_gaussian.py compares the real functions end to end (float
+arithmetic, real pandas) with that oracle over an enumerated small scope."""
 import z3
 
 import contracts.C03 as C03
@@ -21,13 +28,16 @@ from pyvc.api import unit
 from pyvc.theory_np import round_half_even_t
 from pyvc.values import NamedTuple, Obj, V, real
 
-LEVEL = "other"
+LEVEL = "proof"
 GA = C03.GA
 GM = "elexmodel.distributions.GaussianModel.GaussianModel"
-EXPLANATION = "mixed: the unit-level formula/floors are proved from the real AST (obligations listed); the group-selection cascade and aggregate alignment are an exhaustive-small-scope bounded stand-in on the real code (coverage.bounded), not a proof"
+EXPLANATION = "proved from the real AST: per-group statistics, the fallback cascade and its result table (induction over the recursion, own contract at the recursive calls), the matching loop and the interval formula of the aggregate function; a bounded end-to-end companion on real pandas/floats is kept"
 ASSUMPTIONS = C03.ASSUMPTIONS + [
-    "A-SIGMA: the bootstrapped scale (scipy) is finite and positive; scipy.stats.norm.ppf(q, loc, scale) = loc + scale*z_q",
-    "bounded part: group structures up to 2 states x 3 sub-groups, calibration counts in {0,3,9,10,11,25}, two- and one-level aggregates",
+    "A-WM: math_utils.weighted_median(x, w) is a finite function of the multiset of (x_i, w_i) of the rows it is given (its body is not verified here)",
+    "A-SIGMA: math_utils.boot_sigma (scipy.stats.bootstrap, seeded) is a finite positive function of the multiset of its rows' data and (conf, winsorize, seed)",
+    "scipy.stats.norm.ppf(q, loc, scale) = loc + scale*z_q; numpy.sqrt / round as axiomatised functions (s>=0, s*s=x; |round(x)-x|<=1/2, whole, identity on whole numbers)",
+    "termination of the recursion of GaussianModel.fit is not proved (partial correctness); the >=1 calibration row precondition of the aggregate function is C14.gaussian.split",
+    "bounded companion: group structures up to 2 states x 3 sub-groups, calibration counts in {0,3,9,10,11,25}, two- and one-level aggregates",
 ]
 BOUNDED = [{"name": "group_selection_and_alignment", "script": "c15_gaussian.py", "timeout": 2400}]
 
@@ -301,6 +311,12 @@ STAT_COLS = ["var_inflate", "mu_lower_bound", "mu_upper_bound", "sigma_lower_bou
 
 def exists_row(ctx, root, body_u, name):
     """b <=> some row of the universe satisfies body: Skolem witness + ghost instantiation (no quantifier)"""
+    reg = ctx.__dict__.setdefault("_exists_row", {})
+    from pyvc.values import tid
+
+    key = (root.name, tid(z3.simplify(body_u)))
+    if key in reg:  # the same statement: the same symbol
+        return reg[key]
     b = z3.Bool(fresh_name(name))
     w = z3.Int(fresh_name("w_" + name))
     at = lambda i: z3.And(i >= 0, i < root.n, z3.substitute(body_u, (root.u, i)))  # noqa: E731
@@ -311,7 +327,8 @@ def exists_row(ctx, root, body_u, name):
 
     inst(root.u)
     inst(root.u2)
-    return b, w, inst
+    reg[key] = (b, w, inst)
+    return reg[key]
 
 
 class FitSpec:
@@ -354,13 +371,21 @@ class FitSpec:
             d = self.dom[j]
             W, dW = sums.formal_sum_dom(ctx, root, d, t.last)
             W2, _ = sums.formal_sum_dom(ctx, root, d, t.last * t.last)
+            W2, dW2_ = sums.formal_sum_dom(ctx, root, d, t.last * t.last)
+            st = {
+                "mu_lower_bound": sums.formal_stat(ctx, "wmedian", root, d, [lo, w / z3.ToReal(W)]),
+                "mu_upper_bound": sums.formal_stat(ctx, "wmedian", root, d, [up, w / z3.ToReal(W)]),
+                "sigma_lower_bound": sums.formal_stat(ctx, "bootsigma", root, d, [lo], extra),
+                "sigma_upper_bound": sums.formal_stat(ctx, "bootsigma", root, d, [up], extra),
+            }
             self.stats[j] = {
                 "var_inflate": z3.ToReal(W2) / (z3.ToReal(W) * z3.ToReal(W)),
-                "mu_lower_bound": sums.formal_stat(ctx, "wmedian", root, d, [lo, w / z3.ToReal(W)])[0],
-                "mu_upper_bound": sums.formal_stat(ctx, "wmedian", root, d, [up, w / z3.ToReal(W)])[0],
-                "sigma_lower_bound": settings["beta"] * sums.formal_stat(ctx, "bootsigma", root, d, [lo], extra)[0],
-                "sigma_upper_bound": settings["beta"] * sums.formal_stat(ctx, "bootsigma", root, d, [up], extra)[0],
+                "mu_lower_bound": st["mu_lower_bound"][0],
+                "mu_upper_bound": st["mu_upper_bound"][0],
+                "sigma_lower_bound": settings["beta"] * st["sigma_lower_bound"][0],
+                "sigma_upper_bound": settings["beta"] * st["sigma_upper_bound"][0],
                 "_W": (W, dW),
+                "_defs": dict(W=dW, W2=dW2_, **{k: v[1] for k, v in st.items()}),
             }
             # a level-j group with calibration rows has positive weight sums (previous results + 1 >= 1): lemma instances
             r = frames.count_witness(ctx, root, calD) if j == 0 else sums.sum_nonzero_witness(ctx, self.dn[j])
@@ -575,3 +600,159 @@ def _agg_intervals(aggname, keys):
 
 for _n, _k in AGGS.items():
     _agg_intervals(_n, _k)
+
+
+# ---- GaussianModel.fit returns the table of the statement (one step, the recursive calls under the SAME contract) -----
+def parts_equiv(h, res, spec, L):
+    """the table `res` (Frame / multi-level table) holds, at every level, exactly the rows and statistics of `spec`"""
+    res_parts = res.parts if isinstance(res, levels.PartsFrame) else [res]
+    known_roots = [spec.gs[j] for j in range(L + 1)]
+    h.ensures("every_part_is_a_level_of_the_key_list", all(any(p.axis.root is g for g in known_roots) for p in res_parts), why=str([p.axis.root.name for p in res_parts]))
+    for j in range(L + 1):
+        gs = spec.gs[j]
+        rp = [p for p in res_parts if p.axis.root is gs]
+        mult = z3.IntVal(0)
+        for p in rp:
+            for d in p.axis.doms:
+                mult = mult + z3.If(d, 1, 0)
+        h.ensures(f"level{j}.exactly_the_rows_of_the_statement", mult == z3.If(spec.D[j], 1, 0))
+        if j == 0 and L == 2:
+            items = {f"dom{i}": d for i, p in enumerate(rp) for d in p.axis.doms}
+            items.update({"D": spec.D[j], "ncal": spec.ncal, "T": spec.T})
+            items.update({f"F{k}": spec.F[k] for k in spec.F})
+            h.debug_model(mult == z3.If(spec.D[j], 1, 0), items)
+        for i, p in enumerate(rp):
+            if len(p.axis.doms) != 1:
+                h.ensures(f"level{j}.part{i}.single_segment", False)
+                continue
+            d = p.axis.doms[0]
+            for c in STAT_COLS:
+                col = p.col(c)
+                h.ensures(f"level{j}.part{i}.{c}", z3.Implies(d, z3.And(real(col.t) == spec.stats[j][c], z3.Not(col.nan) if col.nan is not None else z3.BoolVal(True))))
+            keycols_ok = all(k in p.cols and z3.eq(p.col(k).t, gs.keyvars[k]) and p.col(k).nan is None for k in spec.keys[:j]) and all(k not in p.cols or z3.is_true(z3.simplify(p.col(k).nan if p.col(k).nan is not None else z3.BoolVal(False))) for k in spec.keys[j:])
+            h.ensures(f"level{j}.part{i}.key_columns_of_the_level_and_null_below", keycols_ok)
+
+
+def _fit_result(aggname, keys):
+    @unit("C15", f"fit_result.{aggname}", fns=[f"{GM}.fit", f"{GM}._fit", f"{GM}._get_n_units_per_group", f"{GM}._empty_gaussian_model", "elexmodel.utils.pandas_utils.semi_join"])
+    def result(h):
+        """the REAL GaussianModel.fit (with _fit, _get_n_units_per_group, semi_join inlined; weighted median / bootstrapped
+        scale and the two recursive self.fit calls under contract -- the recursive calls under the contract being proved)
+        returns the multi-level table of the statement (FitSpec): partial correctness of the recursion by induction"""
+        from pyvc import sums
+        from pyvc.values import SymRaise
+
+        t, inCal, cal = _cal_world(h)
+        root = t.root
+        ctx = h.ctx
+        h.default_replay = lambda ev: {"target": "verif_replays:gaussian_aggregate_replay", "args": [list(keys) if keys else ["postal_code"]], "check": "result['exc'] is None and result['ok']"}
+        h.contracts[WM] = theory_ext.weighted_median_contract
+        h.contracts[BS] = theory_ext.boot_sigma_contract
+        alpha = h.real("alpha")
+        calls = []
+
+        def own_contract(interp, self_, conformalization_data, reporting_units, nonreporting_units, estimand, aggregate=None, alpha=None, reweight=False, top_level=True):
+            spec = FitSpec(h, t, conformalization_data.axis.doms[0], nonreporting_units.axis.doms[0], list(aggregate), alpha)
+            calls.append(dict(spec=spec, conf=conformalization_data, rep=reporting_units, non=nonreporting_units, aggregate=list(aggregate)))
+            return spec.table()
+
+        h.contracts[f"{GM}.fit"] = own_contract
+        gm = h.obj(GM, **SETTINGS)
+        clo = h.load(f"{GM}.fit")
+        L = len(keys)
+        top = FitSpec(h, t, inCal, t.N, keys, alpha)
+        try:
+            res = h.interp.call_closure(clo, [gm, cal, t.rep, t.nonrep, "turnout"], dict(aggregate=list(keys), alpha=alpha, reweight=False, top_level=True))
+        except SymRaise as e:
+            return h.fail("no_raise", f"raised {e.exc}")
+        kv = [top.gs[L].keyvars[k] for k in keys]
+        at_row = lambda r: [z3.substitute(t.keys[k], (root.u, r)) for k in keys]  # noqa: E731  (the key tuple of row r)
+        mins = [e for e in ctx.__dict__.get("_extrema", []) if hasattr(e["root"], "keyvars")]
+        if isinstance(res, frames.Frame) and res.axis.root is root:
+            # no calibration row at all: the "empty model"
+            h.ensures("no_calibration_rows.only_then", top.ncal == 0)
+            h.ensures("no_calibration_rows.table_is_empty", res.axis.n == 0)
+            for j in range(L + 1):
+                h.ensures(f"no_calibration_rows.level{j}.the_statement_has_no_row_either", z3.Not(top.D[j]))
+            return
+        if L == 0:
+            h.ensures("unit_level.no_recursion", not calls)
+            # ghost: "some calibration row" as a count and as the presence of the single group are the same thing
+            cw = frames.count_witness(ctx, root, inCal)
+            pw0 = frames.presence_instances(ctx, root, {}, rows=[cw])
+            frames.count_witness(ctx, root, inCal, rows=pw0)
+            return parts_equiv(h, res, top, L)
+        h.ensures("one_minimum_over_the_group_counts", len(mins) == 1)
+        if len(mins) != 1:
+            return
+        mn = mins[0]
+        if not calls:
+            # ---- every group large enough: ONE per-group fit.  Ghost: no group is below the threshold ...
+            r = top.Fw[L]
+            pt = at_row(r)
+            mn["instantiate"](ctx, pt)
+            w2 = sums.sum_nonzero_witness(ctx, top.dn[L], list(zip(kv, pt)))
+            frames.presence_instances(ctx, root, dict(zip(keys, pt)), rows=[r, w2])
+            # ... and a group is a row of the fit iff it has >= T calibration rows (generic group)
+            ws = sums.sum_nonzero_witness(ctx, top.dn[L])
+            frames.presence_instances(ctx, root, dict(zip(keys, kv)), rows=[ws])
+            return parts_equiv(h, res, top, L)
+        # ---- fallback: [parent level on all data] + [this level on the large groups]
+        h.ensures("fallback.two_recursive_calls", len(calls) == 2 and calls[0]["aggregate"] == list(keys[:-1]) and calls[1]["aggregate"] == list(keys))
+        if len(calls) != 2:
+            return
+        small, large = calls
+        h.ensures("fallback.parent_level_gets_all_the_data", small["conf"] is cal and small["non"] is t.nonrep)
+        # (1) some group IS below the threshold: the group attaining the minimum
+        wit = mn["witness"]
+        ws2 = sums.sum_nonzero_witness(ctx, top.dn[L], list(zip(kv, wit)))
+        pw = frames.presence_instances(ctx, root, dict(zip(keys, wit)), rows=[ws2])
+        for r in list(pw) + [ws2]:
+            top.Finst[L](r)
+        h.ensures("fallback.some_group_is_below_the_threshold", top.F[L])
+        ctx.assume(top.F[L])
+        # (2) the large-group call: its data are exactly the rows of the groups with >= T calibration rows ...
+        Lg = large["spec"]
+        calD2, nonD2 = large["conf"].axis.doms[0], large["non"].axis.doms[0]
+        own = [t.keys[k] for k in keys]
+        grp_ok = lambda point: z3.substitute(top.n[L], *list(zip(kv, point))) >= top.T  # noqa: E731
+        wso = sums.sum_nonzero_witness(ctx, top.dn[L], list(zip(kv, own)))
+        frames.presence_instances(ctx, root, dict(zip(keys, own)), rows=[wso])
+        facts = z3.And(*root.facts())
+        h.ensures("fallback.large_call.calibration_rows", z3.Implies(facts, calD2 == z3.And(inCal, grp_ok(own))))
+        h.ensures("fallback.large_call.outstanding_rows", z3.Implies(facts, nonD2 == z3.And(t.N, grp_ok(own))))
+        pd_ = ctx.__dict__.get("_present_defs", {})
+        items = {"nonD2": nonD2, "N": t.N, "grp_ok": grp_ok(own), "calD2(wso)": z3.substitute(calD2, (root.u, wso)), "inCal(wso)": z3.substitute(inCal, (root.u, wso)), "wso_in": z3.And(wso >= 0, wso < root.n), "n(own)": z3.substitute(top.n[L], *list(zip(kv, own))), "T": top.T}
+        for nm_, (p_, mem_, r_) in pd_.items():
+            items[nm_ + "(own)"] = z3.substitute(p_, *list(zip(kv, own))) if p_.num_args() == len(kv) else p_
+            items[nm_ + ".member(wso)"] = z3.substitute(mem_, (root.u, wso), *list(zip(kv, own))) if p_.num_args() == len(kv) else mem_
+        h.debug_model(z3.Implies(facts, nonD2 == z3.And(t.N, grp_ok(own))), items)
+        # ... so inside a large group nothing changed (guarded congruence), the subset has no more calibration rows ...
+        r2 = Lg.Fw[L]
+        pt2 = at_row(r2)
+        wsr2 = sums.sum_nonzero_witness(ctx, top.dn[L], list(zip(kv, pt2)))
+        frames.presence_instances(ctx, root, dict(zip(keys, pt2)), rows=[r2, wsr2])
+        ws_g = sums.sum_nonzero_witness(ctx, top.dn[L])
+        ws_g2 = sums.sum_nonzero_witness(ctx, Lg.dn[L])
+        frames.presence_instances(ctx, root, dict(zip(keys, kv)), rows=[ws_g, ws_g2])
+        guard = grp_ok(kv)
+        sums.lemma_sum_congr(ctx, Lg.dn[L], top.dn[L], name="lemma.large_group_counts_unchanged", guard=guard, points=[list(zip(kv, own)), list(zip(kv, pt2))])
+        frames.lemma_count_mono(ctx, root, calD2, inCal, name="lemma.subset_has_no_more_calibration_rows")
+        frames.count_witness(ctx, root, calD2, rows=[ws_g, ws_g2])
+        # ... hence the large call does not fall back again and its level-L rows are the statement's
+        h.ensures("fallback.large_call.no_further_fallback", z3.Not(Lg.F[L]))
+        ctx.assume(z3.Not(Lg.F[L]))
+        h.ensures("fallback.large_call.rows_are_the_large_groups", Lg.D[L] == top.D[L])
+        ctx.assume(Lg.D[L] == top.D[L])
+        dl, dt_ = Lg.stats[L]["_defs"], top.stats[L]["_defs"]
+        sums.lemma_sum_congr(ctx, dl["W"], dt_["W"], name="lemma.large_group_weights_unchanged", guard=guard)
+        sums.lemma_sum_congr(ctx, dl["W2"], dt_["W2"], name="lemma.large_group_squared_weights_unchanged", guard=guard)
+        for c in ("mu_lower_bound", "mu_upper_bound", "sigma_lower_bound", "sigma_upper_bound"):
+            sums.lemma_stat_congr(ctx, dl[c], dt_[c], guard=guard, name=f"lemma.large_group_{c}_unchanged")
+        return parts_equiv(h, res, top, L)
+
+    return result
+
+
+for _n, _k in list(AGGS.items()) + [("all", [])]:
+    _fit_result(_n, _k)
